@@ -85,6 +85,15 @@ def check(chk):
     _c02._start_wait_taken_only_when_starting(chk)
     from sa.helpers import unload_cleanup_unconditional
     unload_cleanup_unconditional(chk, "PAIR-8")
+    # ... and the device's in-flight progress goes with it: a sequence shot forgets its half-finished sequences on every path of the unload (with
+    # their time-outs cleared they could never expire: the next run of the mode would complete them with the last step alone)
+    ss_ = chk.repo.func("mpf/devices/sequence_shot.py", "SequenceShot.device_removed_from_mode")
+    chk.analysed(ss_)
+    scfg_ = ss_.cfg()
+    rs_ = [n.id for n, c in scfg_.calls_named("reset_all_sequences")]
+    w_ = scfg_.must_pass(scfg_.entry.id, rs_) if rs_ else [scfg_.entry.id]
+    chk.ob("PAIR-8", "SequenceShot: unloading the device drops its sequences in progress on every path", w_ is None, ss_.where(), construct=ss_.ident,
+           text="sequences in progress survive unload")
     # the game waits for every active game mode when it stops, also one whose own stop is already in flight (shared with C02 / C06):
     # otherwise that mode is still active - handlers, devices and all - when machine.game is gone
     from sa.helpers import stop_loop_selection
@@ -739,6 +748,7 @@ def battery():
     from sa.battery import M
     EP = "mpf/config_players/event_player.py"
     return [
+        M("sequence shot keeps its half-finished sequences on unload", "mpf/devices/sequence_shot.py", "        self._remove_handlers()\n        self.reset_all_sequences()\n        self.delay.clear()", "        self._remove_handlers()\n        self.delay.clear()", "PAIR-8"),
         M("combo switch forgets its delays by name", "mpf/devices/combo_switch.py", "    def _kill_delays(self):\n        self.delay.clear()", "    def _kill_delays(self):\n        for group in (1, 2):\n            self.delay.remove('switch_{}_active'.format(group))\n            self.delay.remove('switch_{}_inactive'.format(group))", "PAIR-8"),
         M("logic block keeps its timeout on unload (F23 reverted)", "mpf/devices/logic_blocks.py", "        self.delay.remove(\"timeout\")\n        self._state = None", "        self._state = None", "PAIR-8"),
         M("multiball keeps its delays on unload (F24 reverted)", "mpf/devices/multiball.py", "            self.stop()\n\n        self.delay.clear()\n", "            self.stop()\n", "PAIR-8"),
